@@ -8,6 +8,8 @@ import (
 	"verif/harness/model"
 )
 
+const OKs = ""
+
 // MRes is what the reference model says a step returns.
 type MRes struct {
 	Skipped  bool
@@ -25,6 +27,8 @@ type MRunner struct {
 	M     *model.FS
 	Slots [NSlots]*model.Handle
 	Flags [NSlots]int
+	// CursorOpen: after WriteAt the references disagree on where the cursor is
+	CursorOpen [NSlots]bool
 }
 
 func NewMRunner() *MRunner { return &MRunner{M: model.New()} }
@@ -93,6 +97,9 @@ func (r *MRunner) Do(s Step) (res MRes) {
 			return
 		}
 		res.N, res.Err = h.WriteAt(Bytes(s.Size, s.Dist, s.Seed), s.Off)
+		if res.Err == OKs {
+			r.CursorOpen[s.Slot] = true
+		}
 	case "read":
 		h := slot()
 		if h == nil {
@@ -116,6 +123,9 @@ func (r *MRunner) Do(s Step) (res MRes) {
 			return
 		}
 		res.Off, res.Err = h.Seek(s.Off, s.Whence)
+		if res.Err == OKs && s.Whence != 1 {
+			r.CursorOpen[s.Slot] = false
+		}
 	case "truncate":
 		h := slot()
 		if h == nil {
@@ -141,6 +151,7 @@ func (r *MRunner) Do(s Step) (res MRes) {
 		}
 		res.Err = h.Close()
 		r.Slots[s.Slot] = nil
+		r.CursorOpen[s.Slot] = false
 	case "mkdir":
 		res.Err = m.Mkdir(s.Path, s.Perm)
 	case "mkdirall":
